@@ -21,7 +21,7 @@ def w0 (x : XKey) (final : Nat) : Working :=
 
 theorem deriveB_nil (x : XKey) :
     deriveB E x [] none = if x.depth > MAX_DEPTH then .error .depth else .ok x := by
-  unfold deriveB
+  unfold deriveB deriveWalk forceStage
   simp [Except.bind, Working.toXKey]
 
 theorem deriveB_concat (x : XKey) (p : List Nat) (i : Nat) :
@@ -30,7 +30,7 @@ theorem deriveB_concat (x : XKey) (p : List Nat) (i : Nat) :
       ((if x.isPrivate then prvPathB E (w0 x (x.depth + (p.length + 1))) p i
         else pubPathB E (w0 x (x.depth + (p.length + 1))) p i).map
         fun (w' : Working) => Working.toXKey { w' with index := i }) := by
-  unfold deriveB
+  unfold deriveB deriveWalk forceStage
   simp [Except.bind, w0]
 
 /-! ### private keys -/
